@@ -34,6 +34,14 @@ OBLIGATIONS = [
     (P + "filter_events_chunking_independent", "for every body the filter callbacks other than progress reports do not depend on the chunking"),
     (P + "readback_exact", "seekg(off) + read to EOF on a part returns exactly the bytes written from off on, in memory or spilled (block refills), any bytes incl. 0xFF at block boundaries"),
     (P + "delivery_reads_back_exactly", "form fields copied through read_file (after a filter may have read the part to its end) and files read by the application = deliver parts, byte for byte"),
+    (P + "fb_invariant", "file_buffer over the regenerated overflow(): put area never beyond its capacity; in memory => capacity and held bytes <= limit"),
+    (P + "spills_iff_exceeds_limit", "disk ok: every write accepted, content = bytes written, spilled to the temporary file iff more than limit bytes were written"),
+    (P + "file_write_agrees", "the parser model's part-buffer abstraction (fileWrite) = the overflow()-level model: same acceptance, same content"),
+    (P + "temp_files_released", "a part created by the parser leaves no temporary file after file::close() (regenerated conditions); a part made permanent keeps it"),
+    (P + "unquote_quote_roundtrip", "protocol::unquote inverts the peer's quoted-string writer for every byte string"),
+    (P + "parse_pair_roundtrip", "; key=\"value\" read by parse_pair and by content_type::parse gives key, value, rest exactly"),
+    (P + "content_type_boundary_roundtrip", "multipart/form-data; boundary=token-or-quoted-string -> media type multipart/form-data and boundary CRLF--bkey"),
+    (P + "request_roundtrip_quoted_boundary", "end-to-end round trip with the boundary sent as a quoted-string (any bytes but CR)"),
     (P + "malformed_urlencoded_refused", "a urlencoded POST body within limits with an item without '=' or with an empty name is refused with 400 (D11, fixed)"),
     (P + "urlencoded_roundtrip", "parse_form_urlencoded applied to k=v&... written by util::urlencode returns exactly the pairs, in order"),
     (P + "urlencoded_request_roundtrip", "... and the request delivers them as post() under any chunking"),
@@ -386,6 +394,30 @@ class Gen:
                     self.rq(flt, ct, cl, cl + 10, cl + 10, mem, True, buf, b"", chunk_at(body, cuts_random(rng, cl, rng.choice((0, 2)))),
                             kind="rq-wf", expect=exp, group=(gid, mem), body=body, parts=parts)
 
+    # ---- file_buffer put area: write schedules (sputc / sputn) against memory limits that are and are not of the form 64*2^k
+    def fb_cases(self, n):
+        rng = self.rng
+        for it in range(n):
+            limit = rng.choice((0, 1, 10, 63, 64, 65, 100, 127, 128, 129, 1000, 1023, 1024, 1025, 3000, rng.randrange(0, 4000)))
+            total = rng.choice((0, 1, limit, limit + 1, max(0, limit - 1), limit + 24, 2 * limit + 3, rng.randrange(0, 4200)))
+            total = min(total, 4200)
+            data = bytes(rng.choice((255, 0, rng.randrange(256))) for _ in range(total))
+            ops, left = [], total
+            while left > 0:
+                k = rng.choice((0, 0, 1, 2, 7, 63, 64, 65, 700, 1024, 1025, left))
+                want = 1 if k == 0 else k
+                if want > left:
+                    k = left
+                    want = left
+                ops.append(k)
+                left -= want
+            if not ops:
+                ops = [0] if total else []
+            if not ops:
+                continue
+            disk = rng.random() < 0.85
+            self.add("fb %d %d %s %s" % (limit, 1 if disk else 0, hx(data), ",".join(map(str, ops))), kind="fb", limit=limit, disk=disk, data=data, ops=ops)
+
     # ---- malformed multipart
     def malformed_cases(self, n):
         rng = self.rng
@@ -493,6 +525,8 @@ def nontrivial_key(cs, o):
         return cs if "| sizes -" not in o and "|" in o else None
     if w == "ct":
         return cs if not o.startswith("- ") else None
+    if w == "fb":
+        return cs if " 0/" in (" " + o) else None      # the buffer spilled
     return None
 
 
@@ -556,12 +590,14 @@ def main():
         if thorough:
             g.multipart_cases(220, 24, big_size=262144)
             g.readback_cases(150)
+            g.fb_cases(3000)
             g.malformed_cases(2500)
             g.ct_cases(4000)
             g.form_cases(800)
         else:
             g.multipart_cases(36, 6, big_size=40000)
             g.readback_cases(25)
+            g.fb_cases(400)
             g.malformed_cases(350)
             g.ct_cases(500)
             g.form_cases(120)
@@ -604,6 +640,27 @@ def main():
             for flag in ("DELIVERED-ON-ERROR", "DELIVERED-EARLY", "TEMP-FILES-LEFT", "BAD-ROOM", "NO-EARLY-MAIN", "stuck", "exception", "pointer-out-of-range", "eof-with-rest", "!size=", "!reread@", "FILTER-SHORT-READ"):
                 if flag in o:
                     bad.append((k, "harness flag " + flag))
+            if kind == "fb":
+                # in memory exactly while not more than `limit` bytes are held; every write accepted when the disk works
+                # (else exactly the writes that fit); read-back = the bytes accepted
+                toks, _, back = o.partition(" R ")
+                held, okj = 0, True
+                for t, kk in zip(toks.split(), m["ops"]):
+                    want = 1 if kk == 0 else kk
+                    f = t.split("/")
+                    if len(f) != 3:
+                        okj = False; break
+                    inmem, size, got = int(f[0]), int(f[1]), int(f[2])
+                    if m["disk"] or held + want <= m["limit"]:
+                        okj = okj and got == want
+                    else:
+                        okj = okj and got < want
+                    held += got
+                    okj = okj and size == held and inmem == (1 if held <= m["limit"] else 0)
+                    if got != want:
+                        break
+                if not okj or back != hx(m["data"][:held]):
+                    bad.append((k, "file_buffer: in_memory()/size()/read-back do not follow 'in memory iff not more than limit bytes'"))
             if kind == "mp":
                 want = ";".join(part_str(p) for p in m["parts"]) or "-"
                 toks, _, files = o.partition(" F ")
